@@ -92,11 +92,12 @@ SPEC_PATHS = [
     ("index.lt", "('l', {'type': 'list_value', 'index.less_than': n})", [("n", "int")], "dm"),
     ("index.eq", "('l', {'type': 'list_value', 'index.equal_to': n})", [("n", "int")], "dm"),
     ("label", "({'type': 'map_value', 'label': lab, 'key.eq': k},)", [("lab", "str"), ("k", "str")], "dm"),
-    ("mol.all", "({'key.not_equal_to': k, 'index.lt': n, 'value': {'value.is_instance': ['list', 'dict', 'int']}, 'label': lab},)", [("k", "str"), ("n", "int"), ("lab", "str")], "dl"),
+    ("mol.all", "({'key.not_equal_to': k, 'index.lt': n, 'value': {'value.is_instance': ['list', 'dict', 'int']}, 'label': 'L1'},)", [("k", "str"), ("n", "int")], "ds"),
     ("mol.conds", "({'list_condition': {'index.gt': n}, 'map_condition': {'key.dtype.eq': 'str'}},)", [("n", "int")], "dm"),
     ("patharg", "({'type': 'map_value', 'value': {'value.in': [{'path': ['l', 0]}, t]}},)", [("t", "int")], "dm"),
 ]
 DOCS12 = dict(DOCS)
+DOCS12['ds'] = "[u1, {'a': u2}, [u3]]"
 
 
 def cases(ctx):
